@@ -577,7 +577,16 @@ impl<F: Float> Harmonic<F> {
     ///
     pub fn ci_mean(&self, confidence: Confidence) -> CIResult<Interval<F>> {
         let arith_ci = self.recip_space.ci_mean(confidence.flipped())?;
-        let (lo, hi) = (F::one() / arith_ci.high_f(), F::one() / arith_ci.low_f());
+        // The part of the reciprocal-space interval at or below zero corresponds to no harmonic
+        // mean of positive data: the reciprocal of such a bound is unbounded (+inf), not negative.
+        let recip = |r: F| {
+            if r > F::zero() {
+                F::one() / r
+            } else {
+                F::infinity()
+            }
+        };
+        let (lo, hi) = (recip(arith_ci.high_f()), recip(arith_ci.low_f()));
         match confidence {
             Confidence::TwoSided(_) => Interval::new(lo, hi).map_err(|e| e.into()),
             Confidence::UpperOneSided(_) => Ok(Interval::new_upper(lo)),
